@@ -221,5 +221,6 @@ func TestCheck(t *testing.T) {
 	vlib.RunCases(r, "cells", cells(), runCase, true)
 	r.MarkExhaustive("matrix cells mode x transport x origin (30 cells, one fixed workload each)")
 	vlib.RunCheck(r, vlib.Check[Case]{Name: "pacing", N: r.Pick(500, 8000), Gen: gen, Run: runCase, Confirm: true, RecordCurrent: true})
+	runShimTier(r)
 	r.Finish()
 }
